@@ -111,7 +111,7 @@ Lemma fold_remove_queued c a L p :
   (forall b, b <> a -> aget b (p_queue p') = aget b (p_queue p)).
 Proof.
   revert p. induction L as [|t L IH]; intros p H0 Hw Hnd HL; cbn [fold_left]; cbn zeta.
-  - repeat split; auto; unfold len; cbn; try lia; tauto.
+  - split; [exact H0|]. split; [exact Hw|]. split; [unfold len; cbn; lia|]. split; [intros x; cbn; tauto|reflexivity].
   - inversion Hnd as [|? ? Hn Hd]; subst. destruct (HL t (or_introl eq_refl)) as [Ht Ea].
     rewrite <- Ea in Ht. destruct (remove_queued c t p H0 Hw Ht) as [E1 [E2 E3]]. cbn zeta in *. rewrite Ea in *.
     set (p1 := remove_tx c t true p) in *.
@@ -128,6 +128,21 @@ Proof.
       * intros [Hx Hnl]. split; [split; [exact Hx|]|tauto].
         intros En. apply Hnl. left. apply (sorted_nonce_inj (aget a (p_queue p))); auto. apply (ir_queue _ _ _ H a).
     + intros b Hb. rewrite E by auto. apply E3. auto.
+Qed.
+
+Lemma firstn_In_sub {A} n (l : list A) x : In x (firstn n l) -> In x l.
+Proof. intros H. rewrite <- (firstn_skipn n l). apply in_or_app. left; exact H. Qed.
+Lemma nodup_firstn {A} n (l : list A) : NoDup l -> NoDup (firstn n l).
+Proof.
+  revert n. induction l as [|y r IH]; intros n H; destruct n; cbn; try constructor.
+  - inversion H; subst. intros Hin. apply firstn_In_sub in Hin. auto.
+  - inversion H; subst. apply IH. assumption.
+Qed.
+Lemma nodup_rev {A} (l : list A) : NoDup l -> NoDup (rev l).
+Proof.
+  induction l as [|y r IH]; cbn; [auto|]. intros H. inversion H; subst. apply nodup_app; auto.
+  - constructor; [intros []|constructor].
+  - intros x Hx [<-|[]]. apply in_rev in Hx. auto.
 Qed.
 
 Lemma all_empty_total m : wf m -> (forall b, aget b m = []) -> atotal m = 0.
@@ -162,9 +177,116 @@ Proof.
       assert (HL : forall t, In t L -> In t l /\ t_from t = a).
       { intros t Ht. assert (In t (rev l)) by (eapply firstn_In_sub; eauto). apply in_rev in H1. split; [exact H1|apply Oq; exact H1]. }
       assert (Hnd : NoDup L).
-      { unfold L. apply nodup_firstn. apply NoDup_rev. apply sorted_nodup. exact Sq. }
+      { unfold L. apply nodup_firstn. apply nodup_rev. apply sorted_nodup. exact Sq. }
       destruct (fold_remove_queued c a L p H0 Hw Hnd HL) as [_ [_ [C _]]]. cbn zeta in C.
       assert (len L = drop).
       { unfold L, len. rewrite firstn_length, rev_length. unfold len in El. lia. }
       lia.
 Qed.
+
+Lemma truncate_queue_bound c order p :
+  Inv0 p -> wfq p -> (forall b, aget b (p_queue p) <> [] -> In b order) ->
+  atotal (p_queue (truncate_queue c order p)) <= c_gqueue c.
+Proof.
+  intros H0 Hw Hcov. unfold truncate_queue. destruct (atotal (p_queue p) <=? c_gqueue c) eqn:E; [lia|].
+  pose proof (tq_loop_total c order (atotal (p_queue p) - c_gqueue c) p H0 Hw) as X.
+  assert (atotal (p_queue p) - c_gqueue c <= atotal (p_queue p)) by lia. specialize (X H Hcov). lia.
+Qed.
+
+(* ---------- the queue map of every reachable state is well formed ---------- *)
+Lemma wfq_promote_tx c a x p : wfq p -> wfq (promote_tx c a x p).
+Proof. apply wfq_same. apply promote_tx_fields. Qed.
+Lemma wfq_promote_one c a p : wfq p -> wfq (promote_one c a p).
+Proof.
+  intros H. unfold promote_one. destruct (aget a (p_queue p)) as [|q0 qr]; [exact H|].
+  destruct (l_forward _ _) as [fw q1]. destruct (l_filter _ _ _ _) as [[drops inv] q2].
+  destruct (l_ready _ _) as [readies q3]. destruct (l_cap _ _) as [caps q4].
+  apply wfq_removed, wfq_all_remove_list, wfq_set_queue.
+  apply wfq_fold; [intros x q Hq; apply wfq_promote_tx; exact Hq|].
+  apply wfq_set_queue, wfq_all_remove_list, wfq_set_queue, wfq_all_remove_list, wfq_set_queue, H.
+Qed.
+Lemma wfq_demote_one c a p : wfq p -> wfq (demote_one c a p).
+Proof.
+  intros H. unfold demote_one. destruct (l_forward _ _) as [olds l1]. destruct (l_filter _ _ _ _) as [[drops invalids] l2].
+  assert (H4 : wfq (fold_left (fun s t => requeue c t s) invalids (all_remove_list drops (set_pend a l2 (all_remove_list olds (set_pend a l1 p)))))).
+  { apply wfq_fold; [intros x q Hq; apply wfq_requeue; exact Hq|]. apply wfq_all_remove_list.
+    apply (wfq_same (all_remove_list olds (set_pend a l1 p))); [reflexivity|]. apply wfq_all_remove_list. exact H. }
+  destruct l2 as [|y l2']; [exact H4|]. destruct (l_get _ _); [exact H4|].
+  apply wfq_fold; [intros x q Hq; apply wfq_requeue; exact Hq|]. exact H4.
+Qed.
+Lemma wfq_drop_last a p : wfq p -> wfq (drop_last a p).
+Proof.
+  intros H. unfold drop_last. destruct (rev _); [exact H|]. apply wfq_removed.
+  apply (wfq_same p); [|exact H]. unfold pn_set_if_lower. destruct (_ <=? _); reflexivity.
+Qed.
+Lemma wfq_add c t loc p : wfq p -> wfq (fst (fst (add c t loc p))).
+Proof.
+  intros H. unfold add. destruct (all_has t p); [exact H|]. destruct (validate p t); [exact H|].
+  destruct (_ <? _); [exact H|].
+  destruct (l_get _ _).
+  - destruct (l_add _ _ _) as [[pl' [o|]]|]; cbn [fst]; [| |exact H].
+    + apply (wfq_same (removed 1 (all_remove o (set_pend (t_from t) pl' p)))); [unfold heap_put; destruct (_ || _); reflexivity|]. apply wfq_removed. exact H.
+    + apply (wfq_same p); [unfold heap_put; destruct (_ || _); reflexivity|exact H].
+  - unfold enqueue_tx. destruct (l_add _ _ _) as [[q' old]|]; [|exact H].
+    match goal with |- wfq (fst (fst (if ?b then _ else ?p1, _, _))) => assert (H1 : wfq p1) end.
+    { match goal with |- wfq (heap_put ?t ?l ?q) => apply (wfq_same q); [unfold heap_put; destruct l; reflexivity|] end.
+      apply (wfq_same (match old with Some o => removed 1 (all_remove o (set_queue (t_from t) q' p)) | None => set_queue (t_from t) q' p end)); [reflexivity|].
+      destruct old; [apply wfq_removed; apply (wfq_same (set_queue (t_from t) q' p)); [reflexivity|]|]; apply wfq_set_queue, H. }
+    cbn [fst]. destruct (_ && _); [|exact H1]. unfold remote_to_locals. apply wfq_removed. exact H1.
+Qed.
+Lemma wfq_add_locked c txs loc p : wfq p -> wfq (fst (fst (add_locked c txs loc p))).
+Proof.
+  revert p. induction txs as [|t r IH]; intros p H; cbn; [exact H|].
+  pose proof (wfq_add c t loc p H) as X. destruct (add c t loc p) as [[p1 v] rep]. cbn [fst] in X.
+  specialize (IH p1 X). destruct (add_locked c r loc p1) as [[p2 vs] d]. exact IH.
+Qed.
+Lemma wfq_fix_nonces p : wfq p -> wfq (fix_nonces p).
+Proof.
+  unfold fix_nonces. generalize (akeys (p_pend p)) as l. generalize (p_pend p) at 1 as m. intros m l. revert p.
+  induction l as [|a l IH]; intros p H; cbn [fold_left]; [exact H|]. cbn beta. apply IH. destruct (rev (aget a m)); exact H.
+Qed.
+Lemma wfq_run c rs dirty qo p : wfq p -> wfq (run c rs dirty qo p).
+Proof.
+  intros H. unfold run. apply wfq_fix_nonces.
+  apply (truncate_queue_pres wfq); [intros t q Hq; apply wfq_remove_tx; exact Hq|].
+  apply (truncate_pending_pres wfq); [intros a q Hq; apply wfq_drop_last; exact Hq|].
+  destruct rs as [r|].
+  - apply (wfq_same (demote_all c (promote_list c (akeys (p_queue (do_reset c r p))) (do_reset c r p)))); [reflexivity|].
+    apply (fold_pres wfq (fun s a => demote_one c a s)); [intros a q Hq; apply wfq_demote_one; exact Hq|].
+    apply (fold_pres wfq (fun s a => promote_one c a s)); [intros a q Hq; apply wfq_promote_one; exact Hq|].
+    unfold do_reset. pose proof (wfq_add_locked c (reinject r) false (set_pn [] (set_st (r_st r) p)) H) as X.
+    destruct (add_locked c (reinject r) false _) as [[p2 vs] d]. exact X.
+  - apply (fold_pres wfq (fun s a => promote_one c a s)); [intros a q Hq; apply wfq_promote_one; exact Hq|exact H].
+Qed.
+Lemma wfq_step c p o qo : wfq p -> wfq (fst (step c p o qo)).
+Proof.
+  intros H. destruct o as [loc txs|g|r|]; cbn.
+  - unfold add_txs. pose proof (wfq_add_locked c (filter (fun t => negb (all_has t p)) txs) loc p H) as X.
+    destruct (add_locked c _ loc p) as [[p1 vs] d]. cbn [fst] in *. apply wfq_run. exact X.
+  - apply wfq_run. unfold set_gas_price. destruct (_ <? _); [|exact H]. apply wfq_removed.
+    apply wfq_fold; [intros x q Hq; apply wfq_remove_tx; exact Hq|exact H].
+  - apply wfq_run, H.
+  - apply wfq_run, H.
+Qed.
+Lemma wfq_run_hist c h p : wfq p -> wfq (run_hist c p h).
+Proof. revert p. induction h as [|[o qo] h IH]; intros p H; cbn; [exact H|]. apply IH, wfq_step, H. Qed.
+Lemma wfq_init pl st : wfq (init pl st).
+Proof. constructor. Qed.
+
+(* truncateQueue applied to any reachable state, with any order that lists the queue accounts *)
+Lemma queue_limit_lemma c pl st h order :
+  let p := run_hist c (init pl st) h in
+  (forall b, aget b (p_queue p) <> [] -> In b order) ->
+  atotal (p_queue (truncate_queue c order p)) <= c_gqueue c.
+Proof.
+  intros p Hcov. apply truncate_queue_bound; auto.
+  - apply (run_hist_IWT c h (init pl st) (init_IWT pl st)).
+  - apply wfq_run_hist. apply wfq_init.
+Qed.
+
+Example queue_limit_nonvacuous :
+  let c := Cfg 10 16 64 16 2 in
+  let p := fst (fst (add_txs c [T 0 1 5 21000 0; T 0 2 5 21000 0; T 1 3 5 21000 0; T 1 4 5 21000 0; T 2 9 5 21000 0] false
+                     (init 1 (St [] [(0,1000000000);(1,1000000000);(2,1000000000)] 1 5000000)))) in
+  atotal (p_queue p) = 5 /\ atotal (p_queue (truncate_queue c [2;1;0] p)) = 2 /\ atotal (p_queue (truncate_queue c [0;1;2] p)) = 2.
+Proof. vm_compute. repeat split. Qed.
